@@ -20,7 +20,7 @@ Ev == Tr.events[ix]
 
 TrInit == /\ tid \in 1..Len(Traces) /\ ix = 1
           /\ jobq = <<>> /\ enqueued = {} /\ cfgChan = <<>> /\ statusChan = <<>>
-          /\ busy = [w \in Workers |-> 0]
+          /\ busy = [w \in Workers |-> 0] /\ alive = [w \in Workers |-> "on"]
           /\ future = [j \in Jobs |-> <<"none", 0>>] /\ sets = [j \in Jobs |-> 0]
           /\ outcome = [j \in Jobs |-> IF j <= Len(Traces[tid].outcome) THEN Traces[tid].outcome[j] ELSE "ok"]
 Consume == ix <= Len(Tr.events) /\ ix' = ix + 1 /\ UNCHANGED tid
